@@ -15,10 +15,15 @@ THEOREMS = [
     "Qentem.Props.JsonTables.notation_tables",
     "Qentem.Props.JsonTables.replacement_matches_escapeJson",
     "Qentem.Props.C06.parse_print",
+    "Qentem.Props.C06.parse_print_concrete",
+    "Qentem.Props.C06.token_natural",
+    "Qentem.Props.C06.token_negative",
+    "Qentem.Props.C06.token_zero",
+    "Qentem.Props.C06.token_escaped_string",
     "Qentem.Props.C06.objInsert_last_wins_first_position",
     "Qentem.Props.C06.objInsert_new_key_appended",
 ]
-OPEN = ["StrSpec / NumSpec instances for every RFC string body and numeral (proved per token class in C20 / C09: backslash-u escapes, surrogate pairs, fitting integers); reals within one ulp is C09's open statement"]
+OPEN = ["NumSpec for numerals with fraction/exponent (C09 real_within_one_ulp is open)", "StrSpec for bodies with \\uXXXX escapes above 0x1F and surrogate pairs: proved in C20 (unescape_text) but not yet restated as StrSpec"]
 
 
 def run(ctx):
